@@ -266,6 +266,10 @@ func genPlan(r *RNG, nBlocks int, addrs []sdk.AccAddress) ([][]genOp, [][]genTx,
 					// re-add an identical (name, account, value): SetAttribute overwrites the record
 					pa := prevAttrs[r.Intn(len(prevAttrs))]
 					nm, acct, val = pa.nm, pa.acct, pa.val
+				} else if len(prevAttrs) > 0 && r.Chance(35) {
+					// a further value under a (name, account) that already holds one: the lookup counter goes to 2+
+					pa := prevAttrs[r.Intn(len(prevAttrs))]
+					nm, acct, val = pa.nm, pa.acct, fmt.Sprintf("w%d", r.Intn(50))
 				}
 				prevAttrs = append(prevAttrs, genAttrRef{nm, acct, val})
 				var exp *time.Time
